@@ -111,7 +111,10 @@ var diagRes = []*regexp.Regexp{
 	regexp.MustCompile(`\b(frt\.Panicf[0-9]\()"(?:[^"\\]|\\.)*"`),
 }
 
+var diagFmtRe = regexp.MustCompile(`\b(PanicNow|panic|frt\.Panic)\(frt\.Sprintf[0-9]\("(?:[^"\\]|\\.)*"(?:, [^()]*)?\)\)`)
+
 func canonDiag(s string) string {
+	s = diagFmtRe.ReplaceAllString(s, "$1(<msg>)")
 	s = diagRes[0].ReplaceAllString(s, "$1(<msg>)")
 	s = diagRes[1].ReplaceAllString(s, "$1<msg>)")
 	s = diagRes[2].ReplaceAllString(s, "$1<msg>")
